@@ -140,7 +140,8 @@ structure Sys where
   slurm : Hid → Option BSt
   -- ghost history
   batches : List Batch
-  starts : List JobId
+  /-- (job, HPC id of the node that started it) -/
+  starts : List (JobId × Hid)
   /-- the submission was complete when `results.json` was last written -/
   summaries : Nat
   completions : Nat
@@ -494,7 +495,7 @@ def step (s : Sys) : Op → Option Sys
     match getNode s p with
     | some n =>
       if j ∈ n.queued ∧ n.nblk j = [] ∧ n.running.length < n.workers then
-        some (setNode { s with starts := s.starts ++ [j] } p
+        some (setNode { s with starts := s.starts ++ [(j, n.hid)] } p
           { n with queued := n.queued.filter (· != j), running := n.running ++ [j] })
       else none
     | none => none
